@@ -236,7 +236,21 @@ func (r *storeRun) metrics() map[string]int {
 }
 
 // exec performs the operation of one step and returns the observed reply.
+var (
+	storeProgress int64        // operations finished so far (watchdog of TestStoreReplay)
+	storeInOp     int64        // an operation is in progress
+	storeCurrent  atomic.Value // description of the operation in progress
+)
+
 func (r *storeRun) exec(st stepJ) repJ {
+	storeCurrent.Store(fmt.Sprintf("%s after %d operations on %s: %s", r.be.Kind(), len(r.obs), r.cfg.Strategy, st.Op.Name))
+	atomic.StoreInt64(&storeInOp, 1)
+
+	defer func() {
+		atomic.StoreInt64(&storeInOp, 0)
+		atomic.AddInt64(&storeProgress, 1)
+	}()
+
 	ctx := context.Background()
 	op := st.Op
 
@@ -610,6 +624,37 @@ func TestStoreReplay(t *testing.T) {
 
 		return
 	}
+
+	// Watchdog on the REAL clock (this goroutine lives outside the bubbles): a sequential operation takes microseconds;
+	// if none has finished for two minutes the operation in progress never returns (a lock that was never released).
+	go func() {
+		last, since := atomic.LoadInt64(&storeProgress), time.Now()
+
+		for {
+			time.Sleep(time.Second)
+
+			if n := atomic.LoadInt64(&storeProgress); n != last {
+				last, since = n, time.Now()
+
+				continue
+			}
+
+			if time.Since(since) < 2*time.Minute || atomic.LoadInt64(&storeInOp) == 0 {
+				continue
+			}
+
+			what, _ := storeCurrent.Load().(string)
+			prop := cfg.BaseProp
+			if strings.Contains(what, " Cleanup") {
+				prop = cfg.CleanupProp
+			}
+
+			res.Violations = append(res.Violations, Violation{Prop: prop, What: "operation never returned: " + what,
+				Sig: "hang|" + what[strings.LastIndex(what, " ")+1:], Replay: map[string]interface{}{"cfg": cfg, "where": what}})
+			mustNoErr(writeJSON(os.Getenv("VERIF_OUT"), res), "write result")
+			os.Exit(0)
+		}
+	}()
 
 	kinds := cfg.Kinds
 	if len(kinds) == 0 {
